@@ -8,7 +8,9 @@
 
 mod c07;
 mod c08;
+mod c14;
 mod c19;
+mod c20;
 mod shell;
 
 use bvcommon::runner::{Ctx, LayerReport, Outcome, Tier, Verdict};
@@ -58,7 +60,9 @@ fn run_prop(prop: &str, ctx: &Ctx) -> Vec<LayerReport> {
     match prop {
         "C07" => c07::run(ctx),
         "C08" => c08::run(ctx),
+        "C14" => c14::run(ctx),
         "C19" => c19::run(ctx),
+        "C20" => c20::run(ctx),
         _ => {
             eprintln!("bvinproc: unknown property {prop}");
             std::process::exit(2);
@@ -70,7 +74,9 @@ fn replay(prop: &str, layer: &str, case: &serde_json::Value) -> Result<(String, 
     match prop {
         "C07" => c07::replay(layer, case),
         "C08" => c08::replay(layer, case),
+        "C14" => c14::replay(layer, case),
         "C19" => c19::replay(layer, case),
+        "C20" => c20::replay(layer, case),
         _ => Err(format!("bvinproc: no replay for {prop}")),
     }
 }
